@@ -92,17 +92,23 @@ def gen_should(tree):
     if len(b) != 2 or not isinstance(b[0], ast.If) or b[0].orelse or not _is_return_const(b[1], False):
         raise TransError("_should_desanitize: expected `if isinstance(attr, str): ...; return False`")
     t = b[0].test
+    nonempty = False
+    if isinstance(t, ast.BoolOp) and isinstance(t.op, ast.And) and len(t.values) == 2 and try_dotted(t.values[1]) == "attr":
+        # `isinstance(attr, str) and attr`: truthiness of a str is non-emptiness
+        nonempty = True
+        t = t.values[0]
     if not (isinstance(t, ast.Call) and try_dotted(t.func) == "isinstance" and len(t.args) == 2
             and try_dotted(t.args[0]) == "attr" and try_dotted(t.args[1]) == "str"):
-        raise TransError("_should_desanitize: outer test is not isinstance(attr, str)")
+        raise TransError("_should_desanitize: outer test is not isinstance(attr, str) [and attr]")
     inner = b[0].body
     if len(inner) != 1 or not isinstance(inner[0], ast.If) or inner[0].orelse or len(inner[0].body) != 1 \
             or not _is_return_const(inner[0].body[0], True):
         raise TransError("_should_desanitize: expected `if <cond>: return True` inside the str branch")
     cond = RB("attr").tr(inner[0].test)
     out = ["(* _should_desanitize: the condition evaluated when isinstance(attr, str) *)",
+           "Definition should_guard_nonempty : bool := %s." % ("true" if nonempty else "false"),
            "Definition should_desanitize_str (attr : string) : result bool :=",
-           "  %s." % cond, "",
+           ("  if py_str_truthy attr then %s else Ok false." % cond) if nonempty else ("  %s." % cond), "",
            "(* `if isinstance(attr, str): if <cond>: return True` ... `return False` *)",
            "Definition should_desanitize (attr : pyv) : result bool :=",
            "  if pyv_isinstance attr [TStr] then",
@@ -118,7 +124,35 @@ def gen_should(tree):
     return out
 
 
-def _attr_loop(loop, owner_src):
+CAUGHT = {"ValueError": "EValueError", "SyntaxError": "ESyntaxError", "TypeError": "ETypeError", "KeyError": "EKeyError",
+          "IndexError": "EKeyError"}
+
+
+def literal_wrapper(tree, fname):
+    """`def f(attr): try: return literal_eval(attr) except (K1, K2): return attr` -> caught kinds"""
+    fn = find_func(tree, fname)
+    if [a.arg for a in fn.args.args] != ["attr"]:
+        raise TransError("%s signature" % fname)
+    b = body_nodoc(fn)
+    if len(b) != 1 or not isinstance(b[0], ast.Try) or b[0].orelse or b[0].finalbody or len(b[0].handlers) != 1:
+        raise TransError("%s: expected a single try/except" % fname)
+    tr = b[0]
+    if len(tr.body) != 1 or not (isinstance(tr.body[0], ast.Return) and ast.unparse(tr.body[0].value) == "literal_eval(attr)"):
+        raise TransError("%s: try body is not `return literal_eval(attr)`" % fname)
+    h = tr.handlers[0]
+    if h.type is None or len(h.body) != 1 or not (isinstance(h.body[0], ast.Return) and try_dotted(h.body[0].value) == "attr"):
+        raise TransError("%s: handler is not `except (...): return attr`" % fname)
+    kinds = h.type.elts if isinstance(h.type, ast.Tuple) else [h.type]
+    out = []
+    for k in kinds:
+        nm = try_dotted(k)
+        if nm not in CAUGHT:
+            raise TransError("%s: caught exception %s" % (fname, nm))
+        out.append(CAUGHT[nm])
+    return out
+
+
+def _attr_loop(loop, owner_src, tree=None, caught=None):
     """`for key, attr in <owner>.attrs.items(): if G(attr...): <owner>.attrs[key] = A(attr)` -> (guard, action)"""
     if not (isinstance(loop, ast.For) and not loop.orelse and isinstance(loop.target, ast.Tuple)
             and [try_dotted(e) for e in loop.target.elts] == ["key", "attr"]):
@@ -150,13 +184,21 @@ def _attr_loop(loop, owner_src):
     v = a.value
     if not (isinstance(v, ast.Call) and len(v.args) == 1 and not v.keywords and try_dotted(v.args[0]) == "attr"):
         raise TransError("assigned value %s" % ast.unparse(v))
-    act = {"str": "ActStr", "literal_eval": "ActLiteralEval"}.get(try_dotted(v.func))
+    fname = try_dotted(v.func)
+    act = {"str": "ActStr", "literal_eval": "ActLiteralEval"}.get(fname)
     if act is None:
-        raise TransError("unknown action %s" % ast.unparse(v.func))
+        if tree is None or fname is None:
+            raise TransError("unknown action %s" % ast.unparse(v.func))
+        kinds = literal_wrapper(tree, fname)
+        if caught is not None:
+            if caught and caught != kinds:
+                raise TransError("the sites catch different exceptions")
+            caught[:] = kinds
+        act = "ActLiteralOrStr"
     return guard, act
 
 
-def gen_loops(tree, fname, expect_types):
+def gen_loops(tree, fname, expect_types, caught=None):
     fn = find_func(tree, fname)
     b = body_nodoc(fn)
     types = None
@@ -174,12 +216,12 @@ def gen_loops(tree, fname, expect_types):
     sites = []
     for s in outer.body:
         if isinstance(s, ast.For) and isinstance(s.target, ast.Tuple):
-            g, a = _attr_loop(s, "node")
+            g, a = _attr_loop(s, "node", tree, caught)
             sites.append(("NodeAttrs", g, a))
         elif isinstance(s, ast.For) and try_dotted(s.target) == "v":
             if ast.unparse(s.iter) != "node.variables" or s.orelse or len(s.body) != 1:
                 raise TransError("%s: variable loop" % fname)
-            g, a = _attr_loop(s.body[0], "node[v]")
+            g, a = _attr_loop(s.body[0], "node[v]", tree, caught)
             sites.append(("VarAttrs", g, a))
         else:
             raise TransError("%s: unexpected statement in node loop: %s" % (fname, ast.unparse(s)[:60]))
@@ -212,7 +254,8 @@ def gen(repo):
            "From XV Require Import Base.Scalar Model.PyVal.",
            "Import ListNotations.", "Open Scope string_scope.", ""]
     types, ssites = gen_loops(tree, "_sanitize_attrs_nc", True)
-    _, dsites = gen_loops(tree, "_desanitize_attrs_nc", False)
+    caught = []
+    _, dsites = gen_loops(tree, "_desanitize_attrs_nc", False, caught)
     out += ["(* sanitized_types of _sanitize_attrs_nc *)",
             "Definition sanitized_types : list pytag := [%s]." % "; ".join(types),
             "Definition is_sanitized_type (attr : pyv) : bool := pyv_isinstance attr sanitized_types.", ""]
@@ -220,7 +263,9 @@ def gen(repo):
     out += ["(* loop structure: for node in dt.subtree: <sites in source order> *)",
             "Inductive attr_site := NodeAttrs | VarAttrs.",
             "Inductive codec_guard := GuardIsSanitizedType | GuardShouldDesanitize.",
-            "Inductive codec_action := ActStr | ActLiteralEval.",
+            "Inductive codec_action := ActStr | ActLiteralEval | ActLiteralOrStr.",
+            "(* exception kinds of literal_eval after which the attribute is left as the string it was *)",
+            "Definition desanitize_caught : list nat := [%s]." % "; ".join(caught),
             "Definition sanitize_loops : list (attr_site * codec_guard * codec_action) := [%s]."
             % "; ".join("(%s, %s, %s)" % s for s in ssites),
             "Definition desanitize_loops : list (attr_site * codec_guard * codec_action) := [%s]."
